@@ -7,7 +7,8 @@
    unless the statement says otherwise - of wait_trial_completion_when_stopping ([wait_completion]).
    Traces are newest-first. [flag_of tr] = value of the most recent _stop_condition evaluation in tr;
    [guarded P tr] = every event of class P occurred while the most recent evaluation before it was False. *)
-From Verif Require Import model.Base model.Tuner proofs.TunerProofs proofs.TunerLivenessProofs proofs.TunerEvalProofs.
+From Verif Require Import model.Base model.Tuner proofs.TunerProofs proofs.TunerLivenessProofs proofs.TunerEvalProofs
+  proofs.TunerComposeProofs.
 
 (* WHEN the stop condition is evaluated: the trace of every run starts with on_tuning_start followed by an evaluation
    (i.e. before the first iteration), and the event recorded right after EVERY on_loop_end is an evaluation
@@ -173,7 +174,10 @@ Print Assumptions c12_counters_during_run.
    trials whose last observed status is Failed and that were not resumed since". *)
 Theorem c12_failures_recorded :
   forall prm o st st' done, process_new_results prm o st = (st', done, None) -> NoDup (s_running st) ->
-  exists sd rs, In (ECbFetch sd rs) (s_trace st') /\ map fst sd = poll_order (s_running st) (o_ord o (s_np st)) /\
+  exists sd rs,
+    (exists post, s_trace st' = post ++ ECbFetch sd rs :: EBFetch (map fst sd) :: s_trace st /\
+                  forallb (fun e => result_ev e || status_ev e) post = true) /\
+    map fst sd = poll_order (s_running st) (o_ord o (s_np st)) /\
     forall t, aget t (s_smap st') = Some Failed <->
               (In (t, Failed) sd \/ (~ In t (map fst sd) /\ aget t (s_smap st) = Some Failed)).
 Proof. exact failures_recorded. Qed.
@@ -195,6 +199,33 @@ Example c12_failures_recorded_example :
   existsb (fun e => match e with ECbResult 0 Failed 0 STOP => true | _ => false end) (s_trace st) = true.
 Proof. vm_compute. repeat split. Qed.
 
+(* THE WHOLE-RUN FAILURE COUNT. [lastobs t tr] (proofs/TunerEvalProofs.v) is the status trial t was last OBSERVED in on
+   the newest-first trace tr: the entry of the most recent poll's status dictionary that lists t (ECbFetch), or
+   InProgress if t's own start / resume is more recent; [obs_failed tr t] = that status is Failed. At EVERY iteration
+   boundary of EVERY run (any fuel) and at a normal loop exit, num_trials_failed - the number the failure limit and
+   _stop_condition compare with max_failures - equals the number of started trials whose last observed status is
+   Failed: no failure is lost (C12-G, C12-P), none is counted twice, and a resumed trial stops counting. (After a poll
+   that raised, the status map is the one of the previous boundary; that case is not in this statement.) *)
+Theorem c12_failed_count_whole_run :
+  forall prm o fuel st x, run_loop prm o fuel = (st, x) -> x = LFuel \/ x = LExit None ->
+    num_status is_failed (s_smap st) = length (filter (obs_failed (s_trace st)) (seq 0 (s_ntrials st))).
+Proof. exact run_loop_failed_count. Qed.
+Print Assumptions c12_failed_count_whole_run.
+
+(* ... and in the state run() returns with after a loop that ended without an exception (outcome Normal, or the
+   failure-limit error raised after stop_all): the count [too_many_failures] is evaluated on. *)
+Theorem c12_failed_count_at_return :
+  forall prm o fuel st out st0, run prm o fuel = (st, out) -> run_loop prm o fuel = (st0, LExit None) ->
+    num_status is_failed (s_smap st) = length (filter (obs_failed (s_trace st)) (seq 0 (s_ntrials st))).
+Proof. exact run_failed_count. Qed.
+Print Assumptions c12_failed_count_at_return.
+
+Example c12_failed_count_example :
+  let '(st, out) := run ex12f_params ex12f_oracles 5 in
+  filter (obs_failed (s_trace st)) (seq 0 (s_ntrials st)) = [0%nat] /\ num_status is_failed (s_smap st) = 1%nat /\
+  lastobs 1 (s_trace st) = Some InProgress.
+Proof. vm_compute. repeat split. Qed.
+
 (* more failed trials than max_failures when run() ends: it ends with ValueError("Trial - t failed") for a
    trial t whose end was observed as Failed *)
 Theorem c12_failure_limit :
@@ -202,6 +233,54 @@ Theorem c12_failure_limit :
     exists t, out = Raised (EFailureLimit t) /\ In (t, Failed) (s_doneall st).
 Proof. exact run_failure_limit. Qed.
 Print Assumptions c12_failure_limit.
+
+(* WHICH EXCEPTIONS CAN LEAVE THE TRY BLOCK, and the state they leave behind. The model's start_trial can fail
+   half-way: [schedule_k] asks the scheduler, and when the suggestion is a new trial that copies the checkpoint of a
+   trial the backend never started ([ckpt_missing]; TrialBackend.start_trial: new_trial_id, copy_checkpoint RAISES,
+   before trial_ids.append and _schedule) the exception ECkptMissing leaves the loop. Every exception that ends the
+   loop is a poll error (worker-budget assertion / missing metric), a resume the backend refuses, or such a failed
+   start - and in that last case the newest event is the suggest call for the id that would have been issued
+   (s_ntrials, unchanged: nothing was registered, no EBStart, no status-map entry), [failed_start_shape]. *)
+Theorem c12_exceptions_leaving_loop :
+  forall prm o fuel st e, run_loop prm o fuel = (st, LExit (Some e)) ->
+    poll_error e \/ resume_error e \/
+    exists j cfg tr, e = ECkptMissing j /\ s_trace st = ESSuggest (s_ntrials st) (SStart cfg (Some j)) :: tr /\
+                     (s_ntrials st <= j)%nat.
+Proof. exact run_loop_error_kinds. Qed.
+Print Assumptions c12_exceptions_leaving_loop.
+
+(* THE FINALLY BLOCK AFTER ANY EXIT (the statement seeded change C12-M breaks): whatever ended the try block - normal
+   exit or any of the exceptions above, a start that failed half-way included - when run() returns no trial the
+   backend issued an id for is InProgress, the number of issued ids is the one at loop exit, and the exception that
+   escapes run() is exactly the one that left the try block (Normal if none), or the failure-limit error raised after
+   stop_all, naming a trial whose end was observed as Failed. *)
+Theorem c12_finally_after_any_exit :
+  forall prm o fuel st out, run prm o fuel = (st, out) -> out <> OutOfFuel ->
+    exists st0 err, run_loop prm o fuel = (st0, LExit err) /\
+      (forall t, (t < s_ntrials st)%nat -> b_w (s_bt st t) <> InProgress) /\
+      s_ntrials st = s_ntrials st0 /\
+      (match err with Some e => exit_error_kind st0 e | None => True end) /\
+      (out = match err with Some e => Raised e | None => Normal end \/
+       exists t, out = Raised (EFailureLimit t) /\ too_many_failures prm st = true /\ In (t, Failed) (s_doneall st)).
+Proof. exact run_finally_any_exit. Qed.
+Print Assumptions c12_finally_after_any_exit.
+
+(* non-vacuity: trial 0 starts; the second suggestion wants the checkpoint of trial 7, which does not exist: the
+   copy raises, trial 1 is never registered, stop_all stops trial 0, the exception escapes unchanged. *)
+Definition ex12s_oracles : oracles :=
+  {| o_world := fun _ => ([], WInProgress); o_ord := fun _ => []; o_dec := fun _ => CONTINUE;
+     o_sug := fun n => match n with O => SStart 0%Z None | _ => SStart 1%Z (Some 7%nat) end;
+     o_clk := fun _ => 0%Q; o_ext := fun _ => false |}.
+Definition ex12s_params : params :=
+  {| n_workers := 2; async := true; wait_completion := false; max_failures := 0; sjwd := true; c_wallclock := None;
+     c_evals := None; c_started := None; c_completed := None; c_finished := None; c_cost := None; c_min_metric := None;
+     c_max_metric := None |}.
+Example c12_failed_start_example :
+  let '(st, out) := run ex12s_params ex12s_oracles 5 in
+  out = Raised (ECkptMissing 7) /\ s_smap st = [(0%nat, Stopped)] /\ s_ntrials st = 1%nat /\
+  b_w (s_bt st 0%nat) = Stopped /\
+  firstn 4 (s_trace st) = [EBStop 0; EBStopAll; ECbTuningEnd; ESSuggest 1 (SStart 1%Z (Some 7%nat))].
+Proof. vm_compute. repeat split. Qed.
 
 (* LIVENESS of the drain phase (wait_trial_completion_when_stopping=True), under an explicit fairness
    hypothesis on the world oracle: if after f0 loop iterations the loop is still running ([LFuel]), and from the
